@@ -132,6 +132,92 @@ pub open spec fn bytes_of_words(w: Seq<u64>) -> Seq<u8> {
     Seq::new(1024, |j: int| nat_to_le(w[j / 8] as nat, 8)[j % 8])
 }
 
+// ------------------------------------------------------------------------------------------------
+// RFC 9106 section 3.4.2: mapping J1 to the reference block index (within one lane of 4 segments)
+// ------------------------------------------------------------------------------------------------
+/// |W|: number of blocks that may be referenced from position (pass, slice, index) when the reference lane is
+/// (same = true) or is not the current lane: the blocks of the last 3 finished segments (pass 0: of all finished
+/// segments), plus - in the current lane - the blocks already built in the current segment, minus the previous block
+pub open spec fn ref_area_size(pass: nat, slice: nat, index: nat, seg: nat, same: bool) -> int {
+    let finished = if pass == 0 { slice * seg } else { 3 * seg };
+    if same { finished + index - 1 } else { finished - (if index == 0 { 1int } else { 0int }) }
+}
+
+/// position of the oldest block of W: pass 0: block 0; later passes: first block of the next slice
+pub open spec fn ref_start(pass: nat, slice: nat, seg: nat) -> nat {
+    if pass == 0 || slice == 3 { 0 } else { (slice + 1) * seg }
+}
+
+/// x = J1^2 / 2^32, y = (|W| * x) / 2^32, zz = |W| - 1 - y
+pub open spec fn map_j1(size: int, j1: nat) -> int {
+    let x = (j1 * j1) / 0x1_0000_0000;
+    let y = (size * x) / 0x1_0000_0000;
+    size - 1 - y
+}
+
+/// z: the zz-th block of W, counted from the oldest one, as a position in the lane of q = 4 * seg blocks
+pub open spec fn ref_index_spec(pass: nat, slice: nat, index: nat, seg: nat, same: bool, j1: nat) -> int {
+    (ref_start(pass, slice, seg) + map_j1(ref_area_size(pass, slice, index, seg, same), j1)) % (4 * seg) as int
+}
+
+pub proof fn lemma_shr32(v: u64)
+    ensures
+        (v >> 32) == v / 0x1_0000_0000,
+        (v >> 32) <= 0xFFFF_FFFF,
+        ((v >> 32) as u32) as u64 == v >> 32,
+{
+    assert((v >> 32) == v / 0x1_0000_0000 && (v >> 32) <= 0xFFFF_FFFF && ((v >> 32) as u32) as u64 == v >> 32) by (bit_vector);
+}
+
+/// the two 32x32 -> 64 bit multiplications of index_alpha do not wrap and compute zz = map_j1(size, j1) in [0, size)
+pub proof fn lemma_map_j1(size: u32, j1: u32)
+    requires
+        size >= 1,
+    ensures
+        ({
+            let x = (((j1 as u64).wrapping_mul(j1 as u64)) >> 32) as u32;
+            let y = (((size as u64).wrapping_mul(x as u64)) >> 32) as u32;
+            &&& y < size
+            &&& size - 1 - y == map_j1(size as int, j1 as nat)
+        }),
+        0 <= map_j1(size as int, j1 as nat) < size,
+{
+    let a = j1 as u64;
+    assert(a * a <= 0xFFFF_FFFF * 0xFFFF_FFFF) by (nonlinear_arith) requires 0 <= a <= 0xFFFF_FFFF;
+    let v = a.wrapping_mul(a);
+    assert(v == a * a);
+    lemma_shr32(v);
+    let x = (v >> 32) as u32;
+    assert(x as int == (j1 as nat * j1 as nat) / 0x1_0000_0000);
+    let b = size as u64;
+    let c = x as u64;
+    assert(b * c <= b * 0xFFFF_FFFF) by (nonlinear_arith) requires 0 <= c <= 0xFFFF_FFFF, 0 <= b;
+    let w = b.wrapping_mul(c);
+    assert(w == b * c);
+    lemma_shr32(w);
+    let y = (w >> 32) as u32;
+    assert(y as int == (size as int * x as int) / 0x1_0000_0000);
+    assert(w < b * 0x1_0000_0000);
+    assert(y < b) by (nonlinear_arith) requires y as int == w as int / 0x1_0000_0000, w < b * 0x1_0000_0000, 0 <= w;
+}
+
+pub proof fn lemma_slice_seg(slice: int, seg: int)
+    requires
+        0 <= slice < 4,
+    ensures
+        slice * seg == (if slice == 0 { 0 } else if slice == 1 { seg } else if slice == 2 { 2 * seg } else { 3 * seg }),
+        (slice + 1) * seg == slice * seg + seg,
+{
+    assert((slice + 1) * seg == slice * seg + seg) by (nonlinear_arith);
+    if slice == 0 {
+    } else if slice == 1 {
+    } else if slice == 2 {
+        assert(2 * seg == seg + seg);
+    } else {
+        assert(slice == 3);
+    }
+}
+
 pub proof fn lemma_fblamka(x: u64, y: u64)
     ensures
         (x & 0xFFFFFFFFu64) * (y & 0xFFFFFFFFu64) <= u64::MAX,
